@@ -37,8 +37,8 @@ ASSUMPTIONS = [
     "which message qualifies (state / event expressions, holds) is C04 / C05 / C08; here the first qualifying message is an input",
 ]
 NOT_DECIDED = ["occurrences before the call: subscriptions start inside the call, so earlier events are not queued (table contracts, C09)",
-               "hold logic inside wait_until (a copy of trigger_watch's): bounded whole-history differential in C05 (bounded.wait_until), "
-               "not under contract"]
+               "hold logic inside wait_until: proved in C05 (legacy.wait_until.step / .start for TrigTime._wait_until; the new subsystem "
+               "runs StateTriggerDecorator._cycle, C05 new.step / new.start); whole histories additionally bounded there"]
 SHAPE_BOUNDS = {"trigger kinds per call": "state, event, mqtt, webhook, time - any subset in the legacy harness; <= 2 trigger decorators + timeout in the new one"}
 LEVEL_TEXT = ("Proof: on every exit path of task.wait_until, including cancellation at each await, the subscriptions / listeners / "
               "timers started by the call are released, in both subsystems; the value returned is that of the first dispatch, "
